@@ -68,3 +68,21 @@ func encodeUTF8(codePoint int) []byte {
 	// Invalid code point, return replacement character (U+FFFD)
 	return []byte{0xEF, 0xBF, 0xBD}
 }
+
+// decodableEscape reports whether an escaped code point can be replaced by the
+// character itself inside a double-quoted JavaScript string without changing the
+// value of the literal: not a quote, backslash, control character or line
+// terminator, and not a lone surrogate (which has no UTF-8 form).
+func decodableEscape(codePoint int) bool {
+	switch {
+	case codePoint < 0x20, codePoint == 0x7F:
+		return false
+	case codePoint == '"', codePoint == '\\':
+		return false
+	case codePoint >= 0xD800 && codePoint <= 0xDFFF:
+		return false
+	case codePoint == 0x2028, codePoint == 0x2029:
+		return false
+	}
+	return true
+}
